@@ -157,7 +157,7 @@ class ExpandedTraceback:
         frames = list(tb_e.stack)
         # A SyntaxError has to be handled differently to actually get its output:
         # https://docs.python.org/3/library/traceback.html#traceback.print_exception
-        if isinstance(self.exception, SyntaxError):
+        if isinstance(self.exception, SyntaxError) and None not in (self.exception.lineno, self.exception.offset):
             offset = self.exception.offset
             if IS_AT_LEAST_PYTHON_310 and not IS_SKULPT:
                 end_lineno = self.exception.end_lineno
